@@ -211,7 +211,7 @@ func setOps(fn *ssa.Function) []setOp {
 			if cal := x.Call.StaticCallee(); cal != nil && cal.Signature.Recv() != nil && len(x.Call.Args) > 0 {
 				rn := core.TypeName(cal.Signature.Recv().Type())
 				if rn == "pairSet" || rn == "fieldsAndFragmentSet" {
-					switch cal.Name() {
+					switch core.N(cal) {
 					case "Has":
 						out = append(out, setOp{in, x.Call.Args[0], false})
 					case "Add":
@@ -245,7 +245,7 @@ func recFragments(c *core.Ctx, r *core.Reporter) {
 		for _, d := range derefs {
 			name := fnKey(fn)
 			if fn.Parent() != nil {
-				name += "$" + fn.Name()[strings.LastIndex(fn.Name(), "$")+1:]
+				name += "$" + core.N(fn)[strings.LastIndex(core.N(fn), "$")+1:]
 			}
 			perFn[name]++
 			key := fmt.Sprintf("%s/deref#%d", name, perFn[name])
@@ -281,7 +281,7 @@ func recFragments(c *core.Ctx, r *core.Reporter) {
 				// worklist shape: the deref result's selection set is appended to a slice inside the loop
 				core.Instrs(fn, func(in ssa.Instruction) {
 					if call, ok := in.(*ssa.Call); ok {
-						if b, ok := call.Call.Value.(*ssa.Builtin); ok && b.Name() == "append" && core.InstrDominates(d, in) && core.InAnyLoop(in.Block()) {
+						if b, ok := call.Call.Value.(*ssa.Builtin); ok && core.N(b) == "append" && core.InstrDominates(d, in) && core.InAnyLoop(in.Block()) {
 							if sl, ok := call.Type().(*types.Slice); ok && core.TypeName(sl.Elem()) == "SelectionSet" {
 								worklist = true
 								descents = append(descents, in)
@@ -567,7 +567,7 @@ func recMemo(c *core.Ctx, r *core.Reporter) {
 			if cal == nil || cal.Signature.Recv() == nil || core.TypeName(cal.Signature.Recv().Type()) != "overlappingFieldsCanBeMergedRule" {
 				continue
 			}
-			if cal == fn || cal.Name() == "collectConflictsBetween" {
+			if cal == fn || core.N(cal) == "collectConflictsBetween" {
 				if !core.InstrDominates(add, ci) {
 					okOrder = false
 				}
@@ -706,7 +706,7 @@ func recLazy(c *core.Ctx, r *core.Reporter) {
 		}
 		core.Instrs(f, func(in ssa.Instruction) {
 			if u, ok := in.(*ssa.UnOp); ok && u.Op == token.MUL {
-				if fld := core.FieldOf(u.X); fld != nil && fld.Name() == "implementations" {
+				if fld := core.FieldOf(u.X); fld != nil && core.N(fld) == "implementations" {
 					bad = fnKey(f) + " reads Schema.implementations"
 				}
 			}
